@@ -497,8 +497,11 @@ func genC13(g *Gen) {
 	otherOps := []byte{'^', '*', '/', '+'}
 	stray := []string{"(", ")", "a", "%", "_", "\t", "\n", ",", ".", "x", "g", "A", "=", "!", "\xff", "\xc3\xa9", "o", "X", "b"}
 	badLits := []string{"0x", "0b", "08", "09", "018", "1_0", "0xAB", "0xaB", "0xA", "-", "- 1", "--1", "0b2", "0b12",
-		"0x1g", "1e3", "0o17", "0X10", "0B1", "-0x", "-0b", "0x-1", "+1", "1.5", "0b_1", "0x_1", "-+1", "0b102"}
-	odd := []string{"00", "017", "-017", "-0", "0007", "-00", "0x0", "-0x0", "0b0", "00x1", "010", "0x00ff", "0b0011", "077777777777777777777777"}
+		"0x1g", "1e3", "0o17", "0X10", "0B1", "-0x", "-0b", "0x-1", "+1", "1.5", "0b_1", "0x_1", "-+1", "0b102",
+		"0x0x1", "0b0b1", "0b0x1", "0x0X1", "0b0B1"}
+	odd := []string{"00", "017", "-017", "-0", "0007", "-00", "0x0", "-0x0", "0b0", "00x1", "010", "0x00ff", "0b0011", "077777777777777777777777",
+		// hexadecimal digits that look like another prefix
+		"0x0b1", "0x0b", "-0x0b10", "0x0b0", "0x0bff", "0xb0b", "0x0b11", "0xb", "0x00b1"}
 	wf := func(maxOps int) (string, []string, []byte) { return c13RandomWF(g, maxOps, 70, 1) }
 	emit := func(class, e string) {
 		g.Count("class=" + class)
@@ -546,6 +549,7 @@ func genC13(g *Gen) {
 		emit("division-by-zero-then-malformed", e+"/0"+[]string{"+", " 1", "*", " )", "^"}[g.R.Intn(5)])
 		emit("malformed-then-division-by-zero", []string{"+", "1 1", "(", "0x "}[g.R.Intn(4)]+e+"/0")
 	}
+	c13UnitBase(g)
 	// the recorded defect: yard.result applies a trailing operator to the two operands below it
 	for _, e := range []string{"1+0/", "3-0/", "7 + 0 /", "1+2+0/", "5*0/", "2^0/", "0/", "1+2*0/", "1-1*0 / ", "2+3^", "2*3^", "2+3*"} {
 		emit("trailing-operator-fixed", e)
@@ -562,5 +566,38 @@ func genC13(g *Gen) {
 		emit("single-stray", "1"+s+"2")
 		emit("single-stray", "1+"+s+"2")
 		emit("single-stray", s+"1")
+	}
+}
+
+// c13UnitBase: powers whose base is 0, 1 or -1 have a value of one machine word whatever the exponent,
+// so they are well-formed expressions the evaluator must answer (exponents far beyond what the
+// generators above allow themselves; `^` groups to the right and binds like `*`). Judged here, with the
+// conventional value as the expectation: the Lean driver is not given exponents of hundreds of bits.
+func c13UnitBase(g *Gen) {
+	cases := []struct {
+		e    string
+		want int64
+	}{
+		{"1^2^300", 1}, {"1^16777217", 1}, {"-1^0x1000001", -1}, {"-1^16777216", 1}, {"2^8 - 1^16777217", 255},
+		{"3*-1^2^64+10", 13}, {"0^2^300", 0}, {"0^2^300 + 7", 7}, {"5*1^2^64", 5}, {"-1^2^70 + 1", 2},
+		{"1^-1^2^65", 1}, {"7 - 0^0x10000000000000001", 7}, {"-1^0b1000000000000000000000001", -1},
+	}
+	for _, c := range cases {
+		r, returned := c13Eval(c.e)
+		g.Count("unit-base-power")
+		msg := ""
+		switch {
+		case !returned:
+			msg = "does not return within the time budget"
+		case r.panicked != "":
+			msg = "panics: " + r.panicked
+		case r.err != nil:
+			msg = "is refused: " + r.err.Error()
+		case r.x == nil || !r.x.IsInt64() || r.x.Int64() != c.want:
+			msg = fmt.Sprintf("evaluates to %v", r.x)
+		}
+		if msg != "" && !g.notesViolation() {
+			g.Notes = append(g.Notes, fmt.Sprintf("VIOLATION: the well-formed expression %q %s, its value is %d", c.e, msg, c.want))
+		}
 	}
 }
